@@ -105,7 +105,13 @@ func Child(seed int64, tier, stateFile string, rounds int, saveMs int, compress 
 	var targets []btc.TxPrevOut
 	var blockHashes []*btc.Uint256
 	var reads atomic.Int64
-	for i := 0; i < 3; i++ {
+	nReaders := 3
+	if os.Getenv("VERIF_POISON_FREE") == "1" {
+		// poison-on-free jobs judge the life times of records among the goroutines of block processing itself (the
+		// property's quantifier); readers outside of it are left out there (see DESIGN.md, observation on UnspentGet)
+		nReaders = 0
+	}
+	for i := 0; i < nReaders; i++ {
 		wg.Add(1)
 		go func(i int) {
 			defer wg.Done()
@@ -602,6 +608,10 @@ func Main() {
 		if i%3 == 1 {
 			env = append(env, "VERIF_PURGE=1") // utxo.UTXO_PURGE_UNSPENDABLE, as a freshly configured client runs
 			run.Inc("histories_with_purge_unspendable")
+		}
+		if i%4 == 2 {
+			env = append(env, "VERIF_POISON_FREE=1") // records live as long as on the client's custom heap: freed = overwritten
+			run.Inc("histories_with_poison_on_free")
 		}
 		res := vlib.RunChild(bin, args, env, nil, 40*time.Minute)
 		desc := map[string]interface{}{"args": args, "GOMAXPROCS": j.procs, "race_build": j.race, "VERIF_YIELD": j.seed}
